@@ -34,7 +34,7 @@ def run_case(case, rng):
     from msdm.core.distributions import DictDistribution
     from mon.gen import build as Bd
 
-    sp = GP.random_pomdp(rng, allow_ghost_obs=True)
+    sp = GP.random_pomdp(rng, allow_ghost_obs=True, tiny_probs=True)
     explicit = rng.random() < 0.5
     pomdp = Bd.build_pomdp(sp, explicit=explicit)
     S = case.call("state_list", lambda: list(pomdp.state_list))
